@@ -92,7 +92,11 @@ def run_case(case, prefix):
         while True:
             if stop_after is not None and delivered[i] >= stop_after():
                 return
+            had = len(w.server_out[i]) > 0 or w.dispatchers[i].closed
             sc.wait_until(lambda: len(w.server_out[i]) > 0 or w.dispatchers[i].closed, "server bytes")
+            if had:
+                # the loop thread was back in select() between two socket events: others ran meanwhile for free
+                sc.env_point("next socket event")
             if w.dispatchers[i].closed:
                 return          # the client closed the socket: nothing more is read from it
             avail = len(w.server_out[i])
@@ -140,6 +144,8 @@ def run_case(case, prefix):
                                 None, bytes(bytearray((i * 7) & 0xFF for i in range(1500)))))
             w.sent_by_server[0].pop()       # never completely delivered
             w.deliver(0, 200)
+        # the close is a later socket event: the loop thread was waiting in select() until it arrived
+        sc.env_point("socket closed by peer")
         w.dispatchers[0].handle_close()
         w.pump_detached()
         w.connect()
@@ -307,22 +313,23 @@ def cases_for(tier):
     return cases
 
 
+def _core2(c):
+    """thorough: cases explored completely at preemption bound 2.  Sizes measured (DESIGN 9.3): a fresh login is
+    ~0.1M executions per case, a cut-off history ~1M; all three variants for the fresh logins, XX for the histories."""
+    if c.get("edge") or c.get("passive") or c.get("cuts"):
+        return False
+    if c.get("history", "fresh") == "fresh":
+        if c.get("corrupt"):
+            return True
+        return (c.get("burst"), c.get("nsend")) in ((0, 0), (0, 1), (1, 0))
+    return c["variant"] == "XX" and c["history"] in ("close-before-hello", "close-after-hello")
+
+
 def run(ctx):
     cases = shuffled(cases_for(ctx.tier), ctx.seed, "c04")
-    bound = 1 if ctx.quick else 2
-    free_bound = 1 if ctx.quick else 2
-    cap = 80000 if ctx.quick else 3000000
-    # waves: wave 0 holds the default (0-preemption) schedules, so the simplest counterexamples come first;
-    # a case that violated is not expanded further, the others are explored up to the bound
-    st = dfs.explore(ctx, MOD, "run_case", cases, bound, cap=cap, chunksize=8, free_bound=free_bound)
-    ctx.note("preemption bound %d, free-deviation bound %d: executions=%d capped=%s" % (bound, free_bound, st.executions, st.capped))
-    # determinism: the same schedule observed twice must give identical observations
-    p1 = run_case(cases[0], (0, {}))
-    p2 = run_case(cases[0], (0, {}))
-    if p1 != p2:
-        raise RuntimeError("nondeterministic replay of the default schedule")
-    st_lines = None
-    if not ctx.quick and not ctx.violations:
+    if ctx.quick:
+        phases = [{"name": "bound1", "cases": cases, "bound": 1, "free_bound": 1, "cap": 80000}]
+    else:
         # line-granularity scheduling points inside layers/__init__.py, noise/layer.py and the segments layer
         # (races between two statements that involve no call), on the cut-off histories, at bound 1
         lc = []
@@ -331,27 +338,34 @@ def run(ctx):
                 d = dict(c)
                 d["lines"] = True
                 lc.append(d)
-        st_lines = dfs.explore(ctx, MOD, "run_case", lc, 1, cap=cap, chunksize=8, free_bound=1)
-        ctx.note("line-level points: cases=%d executions=%d capped=%s" % (len(lc), st_lines.executions, st_lines.capped))
-        st.executions += st_lines.executions
-        st.points += st_lines.points
-        st.capped = st.capped or st_lines.capped
+        phases = [
+            {"name": "bound1", "cases": cases, "bound": 1, "free_bound": 2},
+            {"name": "lines-bound1", "cases": lc, "bound": 1, "free_bound": 1},
+            {"name": "bound2-core", "cases": [c for c in cases if _core2(c)], "bound": 2, "free_bound": 1},
+        ]
+    # within a phase, level 0 holds the default (0-preemption) schedules, so the simplest counterexamples come first;
+    # a case that violated is not expanded further, the others are explored up to the bound
+    st, phase_summ = dfs.explore_phases(ctx, MOD, "run_case", phases)
+    # determinism: the same schedule observed twice must give identical observations
+    p1 = run_case(cases[0], (0, {}))
+    p2 = run_case(cases[0], (0, {}))
+    if p1 != p2:
+        raise RuntimeError("nondeterministic replay of the default schedule")
     for c in cases[:3]:
         ctx.sample(c)
     ctx.coverage.update({
-        "line_level_executions": st_lines.executions if st_lines else 0,
+        "phases": phase_summ,
         "states": st.points,
         "transitions": st.points,
         "traces_validated_against_impl": st.executions,
         "executions": st.executions,
         "cases": len(cases),
-        "preemption_bound_completed": st.bound_completed if not st.capped else None,
-        "free_deviation_bound": free_bound,
+        "preemption_bound_completed_all_cases": 1 if not st.capped else None,
         "by_preemptions": {str(k): n for k, n in sorted(st.by_preemptions.items())},
+        "executions_per_case": {str(k): n for k, n in st.per_case.items()},
         "max_scheduling_points_per_execution": st.max_points,
         "distinct_outcomes": len(st.observations),
         "exhaustive": not st.capped,
-        "cap": cap,
         "explanation": "states/transitions = scheduling points visited (stateless search: each execution is a path); "
                        "every execution runs the real layers and consonance's handshake against the responder double",
     })
